@@ -64,6 +64,13 @@ class _:
                 for r in (1, 3, shp[n]):
                     yield dict(shape=list(shp), n=n, r=r, flip=True, kind="tensor", dtype="float32", decay=1e-2, seed=rng.randrange(10**6))
                     yield dict(shape=list(shp), n=n, r=r, flip=True, kind="tensor", dtype="int16", seed=rng.randrange(10**6))
+        # the same data at very small / large overall scale (the vectors do not depend on it), Tucker with a sparse core
+        for shp in [(4, 3, 3), (5, 4)]:
+            for n in range(len(shp)):
+                for r in (1, 2, shp[n]):
+                    for kind in ("tensor", "sptensor", "ktensor", "ttensor", "ttensor-sparse-core"):
+                        for scale in (1e-8, 1e6):
+                            yield dict(shape=list(shp), n=n, r=r, flip=True, kind=kind, scale=scale, seed=rng.randrange(10**6))
         # leading vectors whose largest and most negative entries have the same magnitude (sign rule ties)
         for shp in [(2, 3, 2), (4, 3), (3, 2, 2)]:
             for n in range(len(shp)):
@@ -87,28 +94,38 @@ class _:
                 sl[n] = shp[n] - 1 if case["empty_slice"] == "last" else 0
                 X = X.copy()
                 X[tuple(sl)] = 0.0
+            if case.get("scale"):
+                X = X * case["scale"]
             obj = ttb.tensor(Xs.copy() if case.get("dtype") else X.copy())
             if kind == "sptensor":
                 obj = obj.to_sptensor()
         elif kind == "ktensor":
             R = 3
             U = [rs.randn(d, R) for d in shp]
-            w = np.array([5.0, 2.0, 0.7])
+            w = np.array([5.0, 2.0, 0.7]) * case.get("scale", 1.0)
             obj = ttb.ktensor([u.copy() for u in U], w.copy())
             X = kfull(U, w)
         else:
             ranks = [min(3, d) for d in shp]
-            G = rs.randn(*ranks)
+            G = rs.randn(*ranks) * case.get("scale", 1.0)
             V = [rs.randn(d, k) for d, k in zip(shp, ranks)]
-            obj = ttb.ttensor(ttb.tensor(G.copy()), [v.copy() for v in V])
-            X = np.asarray(obj.full().data)
+            core = ttb.tensor(G.copy())
+            if kind == "ttensor-sparse-core":
+                G = np.where(rs.rand(*ranks) < 0.7, G, 0.0)
+                G[(0,) * N] = case.get("scale", 1.0)
+                core = ttb.tensor(G.copy()).to_sptensor()
+            obj = ttb.ttensor(core, [v.copy() for v in V])
+            X = G
+            for m in range(N):
+                X = np.moveaxis(np.tensordot(V[m], X, axes=(1, m)), 0, m)
         Xn = np.moveaxis(X, n, 0).reshape(shp[n], -1)
         Gram = Xn @ Xn.T
         ew, ev = np.linalg.eigh(Gram)
         ew, ev = ew[::-1], ev[:, ::-1]
         rank = int((ew > 1e-9 * ew[0]).sum())
         path = "iter" if r < shp[n] - 1 else "dense"
-        cls = f"{kind}:{path}"
+        # (the dense path of sptensor.nvecs is a recorded finding: its failures keep one class whatever the scale)
+        cls = f"{kind}:{path}" + (":scaled" if case.get("scale") and not (kind == "sptensor" and path == "dense") else "")
         V_ = obj.nvecs(n, r, flipsign=case["flip"])
         V_ = np.asarray(V_)
         if np.iscomplexobj(V_):
@@ -121,7 +138,7 @@ class _:
         # columns are eigenvectors of the Gram matrix for its largest eigenvalues, in decreasing order
         for c in range(k):
             res = np.linalg.norm(Gram @ V_[:, c] - ew[c] * V_[:, c])
-            if res > 1e-6 * max(1.0, ew[0]):
+            if res > 1e-6 * (max(1.0, ew[0]) if not case.get("scale") else ew[0]):
                 raise Fail(f"eigenvector-order:{cls}", f"{case}: column {c} residual {res} for eigenvalue {ew[c]} (spectrum {ew})")
         if case["flip"]:
             for c in range(k):
@@ -179,8 +196,12 @@ class _:
         specs = [((2, 2), [[0, 1]]), ((3, 3), [[0, 1]]), ((2, 2, 2), [[0, 1, 2]]), ((2, 2, 2), [[0, 1]]), ((2, 2, 2), [[0, 2]]),
                  ((2, 3, 2), [[0, 2]]), ((3, 2, 2), [[1, 2]]), ((2, 2, 3, 3), [[0, 1], [2, 3]]), ((2, 3, 3, 2), [[0, 3], [1, 2]]),
                  ((2, 2, 2, 2), [[0, 3], [1, 2]]), ((3, 3, 3), [[0, 1, 2]]), ((3, 3, 2), [[0, 1]])]
+        # a group of trailing modes behind two or more untouched leading modes of different sizes, and the converse
+        extra = [((2, 3, 2, 2), [[2, 3]]), ((2, 2, 3, 3), [[2, 3]]), ((3, 2, 2, 2), [[1, 2, 3]]), ((2, 2, 3, 4), [[0, 1]]), ((2, 3, 4, 2, 2), [[3, 4]])]
         if tier == "quick":
-            specs = specs[:9]
+            specs = specs[:9] + extra[:3]
+        else:
+            specs = specs + extra
         for shp, grps in specs:
             for version in (None, 1):
                 for kind in ("generic", "symmetric", "integer"):
@@ -316,6 +337,12 @@ class _:
                     continue
                 for rep in range(2 if tier == "quick" else 4):
                     yield dict(shape=list(shp), kind=kind, seed=rng.randrange(10**6), layout=rng.choice(["C", "F", "view"]), base=rng.choice([1, 0, 1]))
+        # modes of size zero (empty dense objects are written with a well-formed header and no entries)
+        for shp in [(0, 3), (3, 0), (2, 0, 4), (0,)]:
+            for kind in ("tensor", "ktensor", "matrix"):
+                if kind == "matrix" and len(shp) != 2:
+                    continue
+                yield dict(shape=list(shp), kind=kind, seed=rng.randrange(10**6), layout="C", base=1)
 
     def run(self, case):
         ttb = import_pyttb()
@@ -336,6 +363,11 @@ class _:
                 X = _vals(rs, int(np.prod(shp))).reshape(shp)
                 ttb.export_data(ttb.tensor(X.copy()), path)
                 back = ttb.import_data(path)
+                if 0 in shp:
+                    # an empty tensor: kind, shape and emptiness come back (the layout of the empty data array is not compared)
+                    if not isinstance(back, ttb.tensor) or tuple(back.shape) != shp or np.asarray(back.data).size != 0:
+                        raise Fail("tensor:empty", f"{case}")
+                    return
                 if not isinstance(back, ttb.tensor) or tuple(back.shape) != shp or not np.array_equal(back.data, X):
                     raise Fail("tensor", f"{case}")
             elif kind == "sptensor":
@@ -439,6 +471,13 @@ class _:
             F = ttb.tensor.from_function(lambda s: (seen.append(tuple(s)), np.arange(float(np.prod(s))).reshape(s))[1], shp)
             if tuple(F.shape) != shp or seen[0] != shp:
                 raise Fail("tensor.from_function", f"{case}")
+            # entry by entry what the function returned, whatever the memory layout of the returned array
+            base = np.arange(float(np.prod(shp))).reshape(shp) * 1.5 - 2.0
+            for lay, mk in (("C-ordered", lambda s: np.ascontiguousarray(base)), ("F-ordered", lambda s: np.asfortranarray(base)),
+                            ("strided", lambda s: np.repeat(np.ascontiguousarray(base), 2, axis=len(shp) - 1)[..., ::2])):
+                Fl = ttb.tensor.from_function(mk, shp)
+                if tuple(Fl.shape) != shp or not np.array_equal(np.asarray(Fl.data), base):
+                    raise Fail(f"tensor.from_function:values:{lay}", f"{case}")
             K = ttb.ktensor.from_function(np.ones, shp, 2)
             if tuple(K.shape) != shp or K.ncomponents != 2 or not all((f == 1).all() for f in K.factor_matrices) or not (K.weights == 1).all():
                 raise Fail("ktensor.from_function", f"{case}")
